@@ -63,7 +63,39 @@ def np_call(interp, name, args, kwargs, fr):
         return NdV(a.shape, lambda idx: a.fn((zint(n) - 1 - zint(idx[0]),) + tuple(idx[1:])), a.dtype)
     if name == "zeros":
         n = args[0]
-        return NdV((n,), lambda idx: z3.IntVal(0), kwargs.get("dtype"))
+        return NdV((zmax(n, 0) if is_z3(n) else max(n, 0),), lambda idx: z3.IntVal(0), kwargs.get("dtype"))
+    if name == "concatenate":
+        T.add("numpy: concatenate([a, b]) has length len(a)+len(b), items of a then items of b")
+        parts = args[0]
+        if isinstance(parts, ListV) and parts.items is not None:
+            parts = parts.items
+        parts = [_as_nd(interp, p_, fr) for p_ in parts]
+        if len(parts) != 2 or any(len(p_.shape) != 1 for p_ in parts):
+            raise Unsupported("concatenate of other than two 1-D arrays")
+        a, b = parts
+        la = zint(a.shape[0])
+        return NdV((z3.simplify(la + zint(b.shape[0])),),
+                   lambda idx, a=a, b=b, la=la: z3.If(zint(idx[0]) < la, zval(a.fn((idx[0],))), zval(b.fn((zint(idx[0]) - la,)))), a.dtype)
+    if name == "size":
+        a = _as_nd(interp, args[0], fr)
+        return a.shape[0]
+    if name == "asarray":
+        v = args[0]
+        if isinstance(v, ListV) and v.items is not None and not v.items:
+            return NdV((0,), lambda idx: z3.IntVal(0), kwargs.get("dtype"))
+        return _as_nd(interp, v, fr)
+    if name == "convolve":
+        # assumed contract (DESIGN C19): "valid" convolution is a window function:
+        #   len = len(x) - N + 1,  out[i] = W_N(x[i], ..., x[i+N-1])   for an uninterpreted W_N (any arithmetic)
+        x, h = _as_nd(interp, args[0], fr), _as_nd(interp, args[1], fr)
+        mode = args[2] if len(args) > 2 else kwargs.get("mode")
+        N = h.shape[0]
+        if mode != "valid" or not isinstance(N, int):
+            raise Unsupported("np.convolve: only mode 'valid' with a kernel of concrete length is modelled")
+        T.add("numpy: convolve(x, h, 'valid') (len(x) >= len(h) = N) has length len(x)-N+1 and out[i] depends only on x[i..i+N-1] (and h)")
+        W = z3.Function(f"W_{N}", *([z3.IntSort()] * (N + 1)))
+        n = zint(x.shape[0]) - N + 1
+        return NdV((z3.simplify(n),), lambda idx, x=x: W(*[zint(x.fn((zint(idx[0]) + k,))) for k in range(N)]), None)
     raise Unsupported(f"np.{name}")
 
 
@@ -102,4 +134,8 @@ def nd_method(interp, a, name, args, kwargs, fr):
         return ListV(None, z3.simplify(zint(n)) if is_z3(n) else n, z3.Lambda([j], a.fn((j,))), "int", "bytes")
     if name == "reshape":
         return nd_reshape(interp, a, args[0] if len(args) == 1 else tuple(args), fr)
+    if name == "astype":
+        interp.trusted.add("numpy: astype is elementwise (out[i] = cast(in[i]); same length)")
+        cast = z3.Function("np_astype", z3.IntSort(), z3.IntSort())
+        return NdV(a.shape, lambda idx, a=a: cast(zint(a.fn(tuple(idx)))), args[0] if args else None)
     raise Unsupported(f"ndarray.{name}")
